@@ -56,12 +56,13 @@ class ASTWalker:
             ]
         elif isinstance(node, ClassDef):
             definitions = get_classdef_definitions(node)
-            child_nodes = [
-                _def
-                for _def in definitions
-                if _def.__class__.__name__
-                in {"AssignmentStmt", "FuncDef", "ClassDef", "Decorator", "OverloadedFuncDef"}
-            ]
+            # Enums only consist of their instances, their methods and nested classes can't be represented
+            wanted_child_nodes = (
+                {"AssignmentStmt"}
+                if self.__is_enum(node)
+                else {"AssignmentStmt", "FuncDef", "ClassDef", "Decorator", "OverloadedFuncDef"}
+            )
+            child_nodes = [_def for _def in definitions if _def.__class__.__name__ in wanted_child_nodes]
         elif isinstance(node, FuncDef) and node.name == "__init__":
             definitions = get_funcdef_definitions(node)
             child_nodes = [_def for _def in definitions if _def.__class__.__name__ == "AssignmentStmt"]
@@ -84,6 +85,13 @@ class ASTWalker:
         if method is not None:
             method(node)
 
+    @staticmethod
+    def __is_enum(node: ClassDef) -> bool:
+        return any(
+            hasattr(superclass, "fullname") and superclass.fullname in ("enum.Enum", "enum.IntEnum")
+            for superclass in node.base_type_exprs
+        )
+
     def __get_callbacks(self, node: MypyFile | ClassDef | FuncDef | AssignmentStmt) -> _EnterAndLeaveFunctions:
         class_ = node.__class__
         class_name = class_.__name__.lower()
@@ -93,9 +101,8 @@ class ASTWalker:
             if not hasattr(node, "base_type_exprs"):  # pragma: no cover
                 raise AttributeError("Expected classdef node to have attribute 'base_type_exprs'.")
 
-            for superclass in node.base_type_exprs:
-                if hasattr(superclass, "fullname") and superclass.fullname in ("enum.Enum", "enum.IntEnum"):
-                    class_name = "enumdef"
+            if self.__is_enum(node):
+                class_name = "enumdef"
         elif class_name == "mypyfile":
             class_name = "moduledef"
 
